@@ -38,6 +38,42 @@ def _tail_or_pointer(f, upper, ptr, ctx=None):
         return False
 
 
+def postselect_site(run, repo):
+    """StabilizerState.postselect: pure-state guard, kernel arguments, requested phase (2*outcome + operator phase) mod 4, result."""
+    ps = repo.func(K.PY_S, 'StabilizerState.postselect')
+    raises = [st for st, ctx in walk(ps.node) if isinstance(st, ast.Raise) and any('self.r' in norm(t) for t, _ in ctx.conds)]
+    run.check(bool(raises), 'R11.pure', ps, 'self.r != 0', 'post-selection is defined for pure states only: mixed states must raise')
+    inout.check_function(run, repo, ps, {'stabilizer_postselection'})
+    P, R = ps.posparams[1], ps.posparams[2]
+    for c, t, h in repo.callees(ps):
+        if h == 'name' and t[0].name == 'stabilizer_postselection':
+            a = K.actuals(t[0], c)
+            run.check([norm(x) for x in a[:3]] == ['self.gs', 'self.ps', '%s.g' % P], 'R2.postselect', ps, c, 'kernel arguments (self.gs, self.ps, operator string, requested phase)')
+            try:
+                ok = True
+                for res in (0, 1):
+                    for p in (0, 2):
+                        def attr(n, env, rec, p=p):
+                            if norm(n) == '%s.p' % P:
+                                return p
+                            raise Undecidable('attr')
+                        def call(n, env, rec):
+                            if norm(n.func) == 'int':
+                                return int(rec(n.args[0]))
+                            raise Undecidable('call')
+                        if ev(a[3], {R: res}, attr=attr, call=call) != (2 * res + p) % 4:
+                            ok = False
+                run.check(ok, 'R6.sign', ps, c, 'the requested stabilizer phase must be (2*outcome + phase of the operator) mod 4: post-selecting -Z '
+                          'with outcome +1 is post-selecting Z with outcome -1')
+            except Undecidable:
+                run.violation('R6.sign', ps, c, 'the requested phase %s does not depend on the sign %s.p of the post-selected operator' % (norm(a[3]), P))
+    rets = [norm(st.value) for st, _ in walk(ps.node) if isinstance(st, ast.Return)]
+    kp = [norm(st.targets[0].elts[-1]) for st, _ in walk(ps.node) if isinstance(st, ast.Assign) and isinstance(st.value, ast.Call)
+          and norm(st.value.func) == 'stabilizer_postselection' and isinstance(st.targets[0], ast.Tuple)]
+    run.check(len(kp) == 1 and rets == kp, 'R2.postselect', ps, 'return prob', 'postselect returns the probability computed by the kernel')
+    return ps
+
+
 def check(run):
     repo = run.repo
     ml = repo.cls('pyclifford', 'MeasureLayer')
@@ -282,37 +318,7 @@ def check(run):
     from ..rules import rowclass
     rowclass.check_buffer_resets(run, b)
     # ---- postselect
-    ps = repo.func(K.PY_S, 'StabilizerState.postselect')
-    raises = [st for st, ctx in walk(ps.node) if isinstance(st, ast.Raise) and any('self.r' in norm(t) for t, _ in ctx.conds)]
-    run.check(bool(raises), 'R11.pure', ps, 'self.r != 0', 'post-selection is defined for pure states only: mixed states must raise')
-    inout.check_function(run, repo, ps, {'stabilizer_postselection'})
-    P, R = ps.posparams[1], ps.posparams[2]
-    for c, t, h in repo.callees(ps):
-        if h == 'name' and t[0].name == 'stabilizer_postselection':
-            a = K.actuals(t[0], c)
-            run.check([norm(x) for x in a[:3]] == ['self.gs', 'self.ps', '%s.g' % P], 'R2.postselect', ps, c, 'kernel arguments (self.gs, self.ps, operator string, requested phase)')
-            try:
-                ok = True
-                for res in (0, 1):
-                    for p in (0, 2):
-                        def attr(n, env, rec, p=p):
-                            if norm(n) == '%s.p' % P:
-                                return p
-                            raise Undecidable('attr')
-                        def call(n, env, rec):
-                            if norm(n.func) == 'int':
-                                return int(rec(n.args[0]))
-                            raise Undecidable('call')
-                        if ev(a[3], {R: res}, attr=attr, call=call) != (2 * res + p) % 4:
-                            ok = False
-                run.check(ok, 'R6.sign', ps, c, 'the requested stabilizer phase must be (2*outcome + phase of the operator) mod 4: post-selecting -Z '
-                          'with outcome +1 is post-selecting Z with outcome -1')
-            except Undecidable:
-                run.violation('R6.sign', ps, c, 'the requested phase %s does not depend on the sign %s.p of the post-selected operator' % (norm(a[3]), P))
-    rets = [norm(st.value) for st, _ in walk(ps.node) if isinstance(st, ast.Return)]
-    kp = [norm(st.targets[0].elts[-1]) for st, _ in walk(ps.node) if isinstance(st, ast.Assign) and isinstance(st.value, ast.Call)
-          and norm(st.value.func) == 'stabilizer_postselection' and isinstance(st.targets[0], ast.Tuple)]
-    run.check(len(kp) == 1 and rets == kp, 'R2.postselect', ps, 'return prob', 'postselect returns the probability computed by the kernel')
+    ps = postselect_site(run, repo)
     # ---- kernel
     f, k = projk.guards_and_block(run, repo, K.PY_U, 'stabilizer_postselection', signed=True)
     K.product_sites(run, f, floor=2)
